@@ -54,6 +54,8 @@ type PrioScenario struct {
 	FbCap          int          `json:"v1_feedback_capacity,omitempty"`
 	Script         []POp        `json:"script"`
 	Saturate       bool         `json:"saturate,omitempty"`
+	DividerDelayNs int          `json:"divider_takes_ns,omitempty"`                             // the (user supplied) divider takes that long per call
+	IgnoreErr      bool         `json:"err_never_read,omitempty"`                               // the user never reads Err() once the divider has misbehaved
 	NeverEnds      bool         `json:"never_ends,omitempty"`                                   // an input is a nil channel: the discipline must not terminate on its own
 	Starved        bool         `json:"v1_some_priority_without_share,omitempty"`               // no progress is expected, only safety
 	StarveEndsAtRm *uint        `json:"without_share_until_this_priority_is_removed,omitempty"` // once RemoveInput of it has returned every remaining priority has a share
@@ -106,6 +108,7 @@ type prioResult struct {
 	PriosWith2      int
 	Log             []string
 	Aborted         string
+	OldReAdds       int
 	Stolen          int
 	NeverEndedHeld  bool
 	Unstarved       bool
@@ -433,7 +436,7 @@ func (x *prioExec) onOutputClosed() {
 
 // pollErr reads whatever Err() has without blocking.
 func (x *prioExec) pollErr() {
-	if x.ignoreErr && x.mon != nil && x.mon.faulted.Load() {
+	if x.ignoreErr && x.mon != nil && x.mon.faulted.Load() && !x.stopIssued {
 		return
 	}
 	for !x.errClosed {
@@ -562,6 +565,7 @@ func (x *prioExec) pollCtl() {
 			if c.old != nil && c.old.takenAt < 0 {
 				c.old.takenAt = c.old.taken()
 				c.old.removed = true
+				c.old.removedByRm = c.op == "RemoveInput"
 				x.logf("%s(%d) returned: channel #%d had %d items taken", c.op, c.p, c.old.ID, c.old.takenAt)
 				if c.old.takenAt > 0 || c.old.wcCount.Load() > 0 {
 					x.res.RemovedWithData++
@@ -807,6 +811,8 @@ func (x *prioExec) do(op POp) {
 		x.addInput(op)
 	case "readd":
 		x.reAddInput(op)
+	case "addold":
+		x.addOldInput(op)
 	case "rm":
 		x.removeInput(op)
 	case "graceful":
@@ -1094,8 +1100,19 @@ func (x *prioExec) awaitCtl() bool {
 			x.startRelease(x.pickRelease(POp{Mode: "one"}))
 			continue
 		}
-		if i > 2000 || !x.await(prioL, func() bool { return !pending() }) {
+		// (items may still arrive - a slow divider makes the quiescence window of settle() too
+		// short - and must then be released like the others)
+		if i <= 20000 && x.await(prioL, func() bool { return !pending() || len(x.held) > 0 }) {
+			continue
+		}
+		{
 			x.fail("C17", "ctl-hangs", "a control call (AddInput/RemoveInput) did not return within %s (virtual) although nothing is in flight", prioL)
+			fb := -1
+			if x.sys.fbLen != nil {
+				fb = x.sys.fbLen()
+			}
+			x.logf("state: held=%d outLen=%d fbLen=%d relPend=%d received=%d", len(x.held), x.sys.outLen(), fb, x.relPend.Load(), x.res.Received)
+			x.logf("goroutines of the bubble: %s", bubbleStacks(x.ctl.bubbleID.Load()))
 			return false
 		}
 	}
@@ -1121,11 +1138,21 @@ func (x *prioExec) addInput(op POp) {
 	x.ctls = append(x.ctls, c)
 	x.res.CtlOps++
 	x.logf("AddInput(channel #%d cap %d, priority %d) called", in.ID, op.Cap, op.P)
+	thenGraceful := op.Mode == "then-graceful" && x.sys.graceful != nil && !x.gracefulOn
+	if thenGraceful {
+		// GracefulStop() is called by the same goroutine the instant AddInput() has returned
+		x.gracefulOn = true
+		x.logf("... followed at once by GracefulStop()")
+	}
 	x.wg.Add(1)
 	go func() {
 		defer x.wg.Done()
 		x.sys.addInput(in)
 		c.done.Store(true)
+		if thenGraceful {
+			x.sys.graceful()
+			x.gracefulRt.Store(true)
+		}
 	}()
 }
 
@@ -1148,6 +1175,42 @@ func (x *prioExec) reAddInput(op POp) {
 	go func() {
 		defer x.wg.Done()
 		x.sys.addInput(in)
+		c.done.Store(true)
+	}()
+}
+
+// addOldInput registers a priority again with the very channel object that was registered for
+// it before RemoveInput (still open, possibly still holding items): from the moment AddInput
+// returns it is an input like any other. Falls back to a fresh channel when there is none.
+func (x *prioExec) addOldInput(op POp) {
+	if x.sys.addInput == nil || x.stopIssued {
+		return
+	}
+	var old *pInput
+	for _, in := range x.chans {
+		if in.P == op.P && in.removed && in.removedByRm && !in.closeEnq && in.closedAt.Load() == 0 && !in.isNil {
+			old = in
+		}
+	}
+	if old == nil || x.inputs[op.P] != nil {
+		x.addInput(op)
+		return
+	}
+	if !x.awaitCtl() {
+		return
+	}
+	x.mon.allow(op.P, true)
+	old.removed, old.removedByRm, old.takenAt = false, false, -1
+	x.inputs[op.P] = old
+	c := &ctlCall{op: "AddInput(original channel)", p: op.P, in: old}
+	x.ctls = append(x.ctls, c)
+	x.res.CtlOps++
+	x.res.OldReAdds++
+	x.logf("AddInput(channel #%d - the one removed earlier, priority %d) called", old.ID, op.P)
+	x.wg.Add(1)
+	go func() {
+		defer x.wg.Done()
+		x.sys.addInput(old)
 		c.done.Store(true)
 	}()
 }
@@ -1426,7 +1489,7 @@ func runPrioV(sc PrioScenario, ctl *bubbleCtl) *prioResult {
 	for _, in := range x.chans {
 		b.Inputs = append(b.Inputs, in)
 	}
-	x.ignoreErr = sc.Ver == "v2" && sc.Fault != nil && (sc.Seed/7)%3 == 0
+	x.ignoreErr = (sc.Ver == "v2" || sc.Ver == "v1s" || sc.Ver == "v1") && sc.Fault != nil && ((sc.Seed/7)%3 == 0 || sc.IgnoreErr)
 	parked := false
 	for _, in := range x.chans {
 		if in.multi > 0 {
